@@ -38,6 +38,24 @@ def dfltOK (d : Option Arg) (t : V) : Bool :=
   | some a => argOK a t
   | none => false
 
+/-- the value a comparison operand denotes, if its T access succeeds -/
+def msideVal? (l : MSide) (t : V) : Option V :=
+  match l with
+  | .m => some t
+  | .sub e => tGet e t
+
+def sideVal? (r : Side) (t : V) : Option V :=
+  match r with
+  | .m => some t
+  | .sub e => tGet e t
+  | .const v => some v
+
+/-- Python's `lv <op> rv` is true -/
+def cmpTrue (op : CmpOp) (lv rv : Option V) : Bool :=
+  match lv, rv with
+  | some a, some b => pyCmp op a b == some true
+  | _, _ => false
+
 def zipAll (f : Spec → V → Bool) : List Spec → List V → Bool
   | [], _ => true
   | _ :: _, [] => true
@@ -85,11 +103,7 @@ def conforms (ct : ClassTable) : Spec → V → Bool
   | .matchS s d, t => conforms ct s t || dfltOK d t
   | .mtype, t => truthy t
   | .msub e, t => (match tGet e t with | some m => truthy m | none => false)
-  | .mexpr l op r, t =>
-    (match (match l with | .m => some t | .sub e => tGet e t),
-           (match r with | .m => some t | .sub e => tGet e t | .const v => some v) with
-     | some lv, some rv => pyCmp op lv rv == some true
-     | _, _ => false)
+  | .mexpr l op r, t => cmpTrue op (msideVal? l t) (sideVal? r t)
   | .t e, t => (tGet e t).isSome
   | .val _, _ => true
   | .check a, t => (match (checkRef ct a t).1 with | .pass _ => true | _ => false)
@@ -109,22 +123,22 @@ def confZip (ct : ClassTable) : List Spec → List V → Bool
 def confCases (ct : ClassTable) : List (Spec × Spec) → Option Arg → V → Bool
   | [], d, t => dfltOK d t
   | (k, v) :: rest, d, t => if conforms ct k t then conforms ct v t else confCases ct rest d t
+/-- does a target key conform to a spec key?  (`Optional(k)` compares with ==) -/
+def confKey (ct : ClassTable) : KeyKind → Spec → V → Bool
+  | kind, ks, key =>
+    match optKey kind ks with
+    | some k => pyEq key k
+    | none => conforms ct ks key
 /-- the first spec key (in spec order) the target key conforms to claims the entry -/
 def claimIdx (ct : ClassTable) : List (KeyKind × Spec × Spec) → Nat → V → Option Nat
   | [], _, _ => none
   | (kind, ks, _) :: es, i, key =>
-    if (match optKey kind ks with
-        | some k => pyEq key k
-        | none => conforms ct ks key) then some i
-    else claimIdx ct es (i + 1) key
+    if confKey ct kind ks key then some i else claimIdx ct es (i + 1) key
 /-- … and the value must conform to that key's value pattern -/
 def confEntry (ct : ClassTable) : List (KeyKind × Spec × Spec) → V → V → Bool
   | [], _, _ => false
   | (kind, ks, vs) :: es, key, val =>
-    if (match optKey kind ks with
-        | some k => pyEq key k
-        | none => conforms ct ks key) then conforms ct vs val
-    else confEntry ct es key val
+    if confKey ct kind ks key then conforms ct vs val else confEntry ct es key val
 end
 
 /- every `Optional(k, default=d)` in the pattern has a plain value as default (a T expression
@@ -149,6 +163,57 @@ def constDefaultsD : List (KeyKind × Spec × Spec) → Bool
     (match kind with
      | .opt (some (.t _)) => false
      | _ => true) && constDefaults k && constDefaults v && constDefaultsD r
+end
+
+/-! ### "returns them unchanged": patterns that cannot change the value, targets Python can hold -/
+
+/- a pattern with no `default=`, no `Val`, no T expression, no Switch, no Check: every rule
+   it can apply returns what it was given -/
+mutual
+def pureP : Spec → Bool
+  | .ty _ | .lit _ | .pred .. | .regex .. | .mtype | .msub _ | .mexpr .. | .not _ => true
+  | .and cs none | .or cs none | .list cs | .set cs | .fset cs | .tuple cs => pureL cs
+  | .matchS s none => pureP s
+  | .dict es => pureD es && noOptDefaults es
+  | _ => false
+def pureL : List Spec → Bool
+  | [] => true
+  | s :: ss => pureP s && pureL ss
+/-- the key and value patterns of a dict pattern are pure (Optional defaults allowed) -/
+def pureD : List (KeyKind × Spec × Spec) → Bool
+  | [] => true
+  | (_, k, v) :: r => pureP k && pureP v && pureD r
+def noOptDefaults : List (KeyKind × Spec × Spec) → Bool
+  | [] => true
+  | (kind, _, _) :: r =>
+    (match kind with
+     | .opt (some _) => false
+     | _ => true) && noOptDefaults r
+end
+
+/-- no later member `==` an earlier one (what `set(...)` keeps) -/
+def distinctFrom : List V → List V → Bool
+  | _, [] => true
+  | acc, x :: xs => !pyIn x acc && distinctFrom (x :: acc) xs
+
+/-- no later key `==` an earlier one (what a dict holds) -/
+def keysDistinct : List (V × V) → List (V × V) → Bool
+  | _, [] => true
+  | acc, (k, v) :: r => !dictHas acc k && keysDistinct (acc ++ [(k, v)]) r
+
+/- a value CPython can hold: set members and dict keys pairwise different (recursively) -/
+mutual
+def wfV : V → Bool
+  | .list xs | .tuple xs => wfL xs
+  | .set xs | .fset xs => wfL xs && distinctFrom [] xs
+  | .dict es => wfD es && keysDistinct [] es
+  | _ => true
+def wfL : List V → Bool
+  | [] => true
+  | x :: xs => wfV x && wfL xs
+def wfD : List (V × V) → Bool
+  | [] => true
+  | (k, v) :: r => wfV k && wfV v && wfD r
 end
 
 /-- the value a passing match returns -/
@@ -189,7 +254,7 @@ def obsIsOk : Obs → Bool
       are the ones the reading evaluates;
     * when nothing faults, pass/reject is exactly `conforms` (or the default);
     * `verify` gives the same outcome, `matches` is True exactly when it passes;
-    * the target is unchanged. -/
+    * the target is unchanged; and a pattern without defaults returns a value equal to it. -/
 def checkC09 (ct : ClassTable) (p : Spec) (d : Option Arg) (t : V) (o : Obs9) : Bool :=
   match ctorErr p with
   | some e => o.main == .ctor e.cls
@@ -197,13 +262,21 @@ def checkC09 (ct : ClassTable) (p : Spec) (d : Option Arg) (t : V) (o : Obs9) : 
     let den := denote ct (.matchS p d) t
     obsSat den.1 den.2 o.main &&
     obsSat den.1 den.2 o.verify &&
-    o.matched == some (obsIsOk o.main) &&
+    -- matches(): True iff it passes; on a fault (where verify raises) certainly not True
+    (match den.1 with
+     | .fault _ => o.matched != some true
+     | _ => o.matched == some (obsIsOk o.main)) &&
     V.beq o.targetAfter t &&
     (!constDefaults p ||
      (match den.1 with
       | .fault _ => true
       | .pass _ => conforms ct p t || dfltOK d t
-      | .reject _ => !(conforms ct p t || dfltOK d t)))
+      | .reject _ => !(conforms ct p t || dfltOK d t))) &&
+    -- "returns them unchanged": a default-free pattern returns a value equal to the target
+    (!(pureP p && d.isNone && wfV t) ||
+     (match o.main with
+      | .ok v _ => valEq v t
+      | _ => true))
 
 /-! ### facts -/
 
